@@ -187,6 +187,11 @@ def main(tier_: str) -> int:
                     for o in opts:
                         urls.append(f'/dash/{mode}/bbb/{tmpl}' + ('?' + o if o else ''))
                     urls.append(f'/dash/{mode}/tears/{tmpl}')
+                    # a query parameter called mode that disagrees with the mode of the path
+                    other = {'live': 'vod', 'vod': 'live', 'odvod': 'live'}[mode]
+                    urls.append(f'/dash/{mode}/bbb/{tmpl}?mode={other}')
+                    if mode == 'live' and tmpl == 'hand_made.mpd':
+                        urls.append(f'/dash/{mode}/bbb/{tmpl}?patch=1&mode={other}')
                     if mode != 'odvod':
                         for o in (['', 'timeline=1', 'depth=20', 'drm=all', 'drm=clearkey', 'drm=playready&timeline=1'] if tier_ == 'thorough'
                                   else ['', rng.choice(['drm=all', 'drm=clearkey', 'drm=playready'])]):
@@ -214,6 +219,10 @@ def main(tier_: str) -> int:
                 r = fetch(path_of(pl))
                 if r.status_code == 200:
                     lines.append(doc_line(path_of(pl), r.data, r.status_code) | {'patchdoc': 1})
+                pm = path_of(pl) + ('&' if '?' in pl else '?') + 'mode=vod'
+                r = fetch(pm)
+                if r.status_code == 200:
+                    lines.append(doc_line(pm, r.data, r.status_code) | {'patchdoc': 1})
             # ---- young streams at sub-second instants: every quantity derived from (now - start) is computed from a clock with a
             # fractional second; the stream is younger than its time-shift buffer (start=now, or an explicit start a few seconds ago)
             young = 0
